@@ -1,5 +1,5 @@
 (* C07 listing tie: soundness of the boolean rule of MachineOps.v against its Prop-level reading. *)
-From Coq Require Import List String Bool Arith Lia.
+From Coq Require Import List String Ascii Bool Arith Lia.
 Import ListNotations.
 Require Import CV.RowLegMachine CV.MachineOps.
 
@@ -53,7 +53,8 @@ Qed.
 
 Theorem ops_covered_b_sound t c : ops_covered_b t c = true -> ops_covered t c.
 Proof.
-  unfold ops_covered_b, ops_covered. intros H.
+  unfold ops_covered_b, ops_covered. intros H0.
+  apply andb_prop in H0. destruct H0 as [H _].
   destruct (forall2b_nth _ _ _ H) as [Hlen Hnth]. split; [exact Hlen|].
   intros i f g Hf Hg. specialize (Hnth i f g Hf Hg). unfold fun_okb in Hnth.
   apply andb_prop in Hnth. destruct Hnth as [Hn Hops].
@@ -108,4 +109,43 @@ Proof.
   exists f, o. repeat split; try assumption; try (apply Hm).
   - eapply nth_error_In; eassumption.
   - eapply nth_error_In; eassumption.
+Qed.
+
+(* ---------- callee closure *)
+Lemma smem_In s l : smem s l = true <-> In s l.
+Proof.
+  unfold smem. rewrite existsb_exists. split.
+  - intros [x [Hx He]]. apply String.eqb_eq in He. subst. exact Hx.
+  - intros Hin. exists s. split; [exact Hin | apply String.eqb_refl].
+Qed.
+
+Lemma In_table_names n t : In n (table_names t) <-> exists g, In g t /\ base_name (f_name g) = n.
+Proof.
+  unfold table_names. rewrite in_map_iff. split; intros [g [Ha Hb]]; exists g; tauto.
+Qed.
+
+Lemma In_map_fst (n : string) (l : list (string * string)) : In n (map fst l) <-> exists r, In (n, r) l.
+Proof.
+  rewrite in_map_iff. split.
+  - intros [[a b] [Ha Hb]]. simpl in Ha. subst. exists b. exact Hb.
+  - intros [r Hr]. exists (n, r). split; [reflexivity | exact Hr].
+Qed.
+
+Theorem calls_okb_sound t c : calls_okb t c = true -> calls_ok t c.
+Proof.
+  unfold calls_okb, calls_ok. intros H. apply andb_prop in H. destruct H as [H1 H2].
+  rewrite forallb_forall in H1. rewrite forallb_forall in H2. split.
+  - intros f n Hf Hn. specialize (H1 f Hf). rewrite forallb_forall in H1. specialize (H1 n Hn).
+    apply orb_prop in H1. destruct H1 as [Ht | Hc].
+    + left. apply In_table_names. apply smem_In. exact Ht.
+    + right. apply In_map_fst. apply smem_In. exact Hc.
+  - intros n r Hr. specialize (H2 (n, r) Hr). cbn [fst] in H2.
+    apply andb_prop in H2. destruct H2 as [Hcalled Hnot]. split.
+    + apply existsb_exists in Hcalled. destruct Hcalled as [f [Hf Hm]]. exists f. split; [exact Hf | apply smem_In; exact Hm].
+    + intros Hex. apply In_table_names in Hex. apply smem_In in Hex. rewrite Hex in Hnot. discriminate Hnot.
+Qed.
+
+Corollary ops_covered_calls t c : ops_covered_b t c = true -> calls_ok t c.
+Proof.
+  unfold ops_covered_b. intros H. apply andb_prop in H. destruct H as [_ H]. apply calls_okb_sound. exact H.
 Qed.
